@@ -269,9 +269,17 @@ def check_date(acc, pendulum, n, ws):
                 acc.mismatch(f"date-{which}_of", f"{unit}/neighbour", case, got, "neighbour outside")
 
 
-def _set_week(pendulum, ws):
-    pendulum.week_starts_at(pendulum.WeekDay(ws))
-    pendulum.week_ends_at(pendulum.WeekDay((ws + 6) % 7))
+def _set_week(pendulum, ws, plain_int=None):
+    """week_starts_at()/week_ends_at() accept WeekDay members and plain ints alike: odd settings are given as ints
+    (and so is the numerically-default 0 when asked for explicitly)."""
+    if plain_int is None:
+        plain_int = ws % 2 == 1
+    if plain_int:
+        pendulum.week_starts_at(int(ws))
+        pendulum.week_ends_at(int((ws + 6) % 7))
+    else:
+        pendulum.week_starts_at(pendulum.WeekDay(ws))
+        pendulum.week_ends_at(pendulum.WeekDay((ws + 6) % 7))
 
 
 def anomalous_transitions(z):
@@ -321,7 +329,7 @@ def run_shard(shard):
                         acc.c["nontrivial"] += 1
                     check_state(acc, pendulum, z, inst, [u for u in UNITS if u != "week"], 0)
                     for ws in shard["week_configs"]:
-                        _set_week(pendulum, ws)
+                        _set_week(pendulum, ws, plain_int=(True if ws == 0 and inst % 2 else None))
                         check_state(acc, pendulum, z, inst, ["week"], ws)
                     _set_week(pendulum, 0)
                 if trs:
@@ -330,7 +338,7 @@ def run_shard(shard):
                                 "week_starts": shard["week_configs"]})
         elif k == "dates":
             for ws in range(7):
-                _set_week(pendulum, ws)
+                _set_week(pendulum, ws, plain_int=(True if ws == 0 else None))
                 for n in range(shard["n0"], shard["n1"], shard["step"]):
                     check_date(acc, pendulum, n, ws)
                     acc.c["states"] += 1
@@ -343,7 +351,7 @@ def replay_case(case, acc):
     import pendulum
     ws = case.get("ws", 0)
     try:
-        _set_week(pendulum, ws)
+        _set_week(pendulum, ws, plain_int=(True if ws == 0 else None))
         if case["kind"] == "date":
             check_date(acc, pendulum, case["n"], ws)
         else:
